@@ -34,7 +34,7 @@ def tasks(tier, seed):
           Task('factories', MOD, 'task_factories', (), backend='ground',
                fuc=['segno.helpers.make_wifi', 'segno.helpers.make_mecard', 'segno.helpers.make_vcard', 'segno.helpers.make_geo',
                     'segno.helpers.make_email', 'segno.helpers.make_epc_qr'])]
-    for k in range(8 if tier == 'quick' else 96):
+    for k in range(16 if tier == 'quick' else 96):
         ts.append(Task('bounded_payloads[%d]' % k, MOD, 'task_bounded', (seed, k), backend='bounded',
                        fuc=['segno.helpers.*'], weight=20))
     return ts
